@@ -338,11 +338,13 @@ Fixpoint copy_row (h : hp) (cb : adjacency) (n : Z) (r : list (Z * ref)) : pyres
       | None =>
           match hget h rf with
           | None => Err OtherError
-          | Some cl => let (h1, rf') := halloc h cl in     (* bond.copy(full=True) *)
-                       match copy_row h1 cb n t with
-                       | Ok (h2, l) => Ok (h2, (m, rf') :: l)
-                       | Err e => Err e
-                       end
+          | Some cl =>
+              if negb (b_lab cl) then Err AttributeError        (* bond.copy(full=True) reads in_ring *)
+              else let (h1, rf') := halloc h cl in
+                   match copy_row h1 cb n t with
+                   | Ok (h2, l) => Ok (h2, (m, rf') :: l)
+                   | Err e => Err e
+                   end
           end
       end
   end.
@@ -355,7 +357,10 @@ Fixpoint copy_rows (h : hp) (cb : adjacency) (rows : adjacency) : pyres (hp * ad
       | Ok (h1, l) => copy_rows h1 (zset cb n l) t
       end
   end.
+Definition labelled (a : acell) : bool := match a_lab a with Some _ => true | None => false end.
 Definition copy_mol (c : cfg) (ks kc : bool) (h : hp) (o : mobj) : pyres (hp * mobj) :=
+  if negb (forallb (fun na => labelled (snd na)) (o_atoms o)) then Err AttributeError   (* atom.copy(full=True) reads the labels *)
+  else
   match copy_rows h [] (o_adj o) with
   | Err e => Err e
   | Ok (h1, cb) =>
@@ -569,7 +574,8 @@ Definition step (c : cfg) (s : state) (p : op) : state * option pyexn :=
              end
   | OSub ats => match substructure c ats (s_heap s) (s_cur s) with
                 | Err e => (s, Some e)
-                | Ok (h, o, e) => (mkS h (s_cur s) (o :: s_others s), e)
+                | Ok (h, o, None) => (mkS h (s_cur s) (o :: s_others s), None)
+                | Ok (h, _, Some e) => (mkS h (s_cur s) (s_others s), Some e)      (* the half-made object is dropped *)
                 end
   | OSwap => match s_others s with
              | [] => (s, None)
